@@ -334,3 +334,134 @@ theorem sh_views (h : SH β) :
 
 
 end Pcore.Coll
+
+namespace Pcore.Coll
+open OMap
+variable {β : Type} [DecidableEq β]
+
+/-- what `Equals` must answer: as many entries, and every entry of the first map is in the second with an equal value -/
+def equalsSpec (a b : List (String × β)) : Bool :=
+  decide (a.length = b.length) && a.all fun e => decide (OMap.get id b e.1 = some e.2)
+
+theorem SInv.equalsLoop {o : SH β} (ho : SInv o) (es : List (String × β)) :
+    SH.equalsLoop o es = some (es.all fun e => decide (OMap.get id o.entries e.1 = some e.2)) := by
+  induction es with
+  | nil => rfl
+  | cons e es ih =>
+    simp only [SH.equalsLoop, List.all_cons]
+    cases hp : GoMap.get o.index e.1 with
+    | none =>
+      have hnone : idx id o.entries e.1 = none := by rw [← ho.2]; exact hp
+      simp [get_of_idx_none hnone]
+    | some p =>
+      obtain ⟨x, hx, _⟩ := ho.entry hp
+      have hidx : idx id o.entries e.1 = some p := by rw [← ho.2]; exact hp
+      simp only [hx, get_of_idx_some hidx hx, ih]
+      by_cases hv : x.2 = e.2 <;> simp [hv]
+
+/-- `Equals` never faults and answers the order-insensitive comparison of the two maps -/
+theorem SInv.equals {h o : SH β} (ho : SInv o) : h.equals o = some (equalsSpec h.entries o.entries) := by
+  simp only [SH.equals, equalsSpec, ho.equalsLoop]
+  by_cases hl : h.entries.length = o.entries.length <;> simp [hl]
+
+end Pcore.Coll
+
+namespace Pcore.Coll
+open OMap
+
+/-- pigeonhole: a duplicate-free list inside a list that is not longer contains all of it -/
+theorem subset_of_nodup_subset_length {γ : Type} [DecidableEq γ] {l₁ l₂ : List γ} (hn : l₁.Nodup) (hs : l₁ ⊆ l₂)
+    (hl : l₂.length ≤ l₁.length) : l₂ ⊆ l₁ := by
+  induction l₁ generalizing l₂ with
+  | nil =>
+    have : l₂ = [] := List.eq_nil_of_length_eq_zero (by simpa using hl)
+    simp [this]
+  | cons x t ih =>
+    have hx : x ∈ l₂ := hs (by simp)
+    have hn' := List.nodup_cons.mp hn
+    have hsub : t ⊆ l₂.erase x := by
+      intro y hy
+      have hne : y ≠ x := fun e => hn'.1 (e ▸ hy)
+      exact (List.mem_erase_of_ne hne).mpr (hs (List.mem_cons_of_mem _ hy))
+    have hlen : (l₂.erase x).length ≤ t.length := by
+      rw [List.length_erase_of_mem hx]; simp at hl; omega
+    have := ih hn'.2 hsub hlen
+    intro y hy
+    by_cases hyx : y = x
+    · simp [hyx]
+    · exact List.mem_cons_of_mem _ (this ((List.mem_erase_of_ne hyx).mpr hy))
+
+theorem nodup_length_le {γ : Type} [DecidableEq γ] {l₁ l₂ : List γ} (hn : l₁.Nodup) (hs : l₁ ⊆ l₂) :
+    l₁.length ≤ l₂.length := by
+  induction l₁ generalizing l₂ with
+  | nil => simp
+  | cons x t ih =>
+    have hx : x ∈ l₂ := hs (by simp)
+    have hn' := List.nodup_cons.mp hn
+    have hsub : t ⊆ l₂.erase x := by
+      intro y hy
+      have hne : y ≠ x := fun e => hn'.1 (e ▸ hy)
+      exact (List.mem_erase_of_ne hne).mpr (hs (List.mem_cons_of_mem _ hy))
+    have := ih hn'.2 hsub
+    rw [List.length_erase_of_mem hx] at this
+    have : 0 < l₂.length := List.length_pos_of_mem hx
+    simp; omega
+
+variable {β : Type} [DecidableEq β]
+
+theorem get_eq_some_of_mem {a : List (String × β)} (hn : (keys id a).Nodup) {e : String × β} (he : e ∈ a) :
+    OMap.get id a e.1 = some e.2 := by
+  induction a with
+  | nil => simp at he
+  | cons x xs ih =>
+    have hn' : x.1 ∉ keys id xs ∧ (keys id xs).Nodup := by simpa [keys] using hn
+    rcases List.mem_cons.mp he with rfl | he
+    · simp [OMap.get, getEntry]
+    · have hne : ¬ x.1 = e.1 := by
+        intro h
+        apply hn'.1
+        simp only [keys, List.mem_map, id]
+        exact ⟨e, he, h.symm⟩
+      have := ih hn'.2 he
+      simpa [OMap.get, getEntry, hne] using this
+
+theorem get_eq_none_of_not_mem {a : List (String × β)} {k : String} (h : k ∉ keys id a) : OMap.get id a k = none :=
+  get_of_idx_none (idx_eq_none.mpr h)
+
+theorem mem_keys_of_get {a : List (String × β)} {k : String} {v : β} (h : OMap.get id a k = some v) : k ∈ keys id a := by
+  by_cases hk : k ∈ keys id a
+  · exact hk
+  · rw [get_eq_none_of_not_mem hk] at h; cases h
+
+/-- for maps (unique keys) `Equals` is extensional equality of the lookups: the order of the entries is ignored -/
+theorem equalsSpec_iff {a b : List (String × β)} (ha : (keys id a).Nodup) (hb : (keys id b).Nodup) :
+    equalsSpec a b = true ↔ ∀ k, OMap.get id a k = OMap.get id b k := by
+  simp only [equalsSpec, Bool.and_eq_true, decide_eq_true_eq, List.all_eq_true]
+  constructor
+  · rintro ⟨hl, hall⟩ k
+    have hsub : keys id a ⊆ keys id b := by
+      intro k hk
+      obtain ⟨e, he, rfl⟩ := List.mem_map.mp hk
+      exact mem_keys_of_get (hall e he)
+    have hback := subset_of_nodup_subset_length ha hsub (by simp [keys, hl])
+    by_cases hk : k ∈ keys id a
+    · obtain ⟨e, he, rfl⟩ := List.mem_map.mp hk
+      rw [show id e.1 = e.1 from rfl, get_eq_some_of_mem ha he, hall e he]
+    · have hkb : k ∉ keys id b := fun h => hk (hback h)
+      rw [get_eq_none_of_not_mem hk, get_eq_none_of_not_mem hkb]
+  · intro h
+    have hsub : keys id a ⊆ keys id b := by
+      intro k hk
+      obtain ⟨e, he, rfl⟩ := List.mem_map.mp hk
+      exact mem_keys_of_get (v := e.2) (by rw [← h]; exact get_eq_some_of_mem ha he)
+    have hsub' : keys id b ⊆ keys id a := by
+      intro k hk
+      obtain ⟨e, he, rfl⟩ := List.mem_map.mp hk
+      exact mem_keys_of_get (v := e.2) (by rw [h]; exact get_eq_some_of_mem hb he)
+    refine ⟨?_, fun e he => by rw [← h]; exact get_eq_some_of_mem ha he⟩
+    have h1 := nodup_length_le ha hsub
+    have h2 := nodup_length_le hb hsub'
+    have : (keys id a).length = (keys id b).length := by omega
+    simpa [keys] using this
+
+end Pcore.Coll
